@@ -372,10 +372,16 @@ type FactsClient struct {
 	OnBranch   func(cond ast.Expr, truth bool, s Facts) Facts
 	OnReturn   func(r *ast.ReturnStmt, s Facts)
 	OnTypeCase func(sw *ast.TypeSwitchStmt, cc *ast.CaseClause, s Facts) Facts
+	OnJoin     func(a, b Facts) Facts // nil: the facts that hold on both sides
 }
 
-func (c *FactsClient) Copy(s Facts) Facts    { return s.Copy() }
-func (c *FactsClient) Join(a, b Facts) Facts { return a.Meet(b) }
+func (c *FactsClient) Copy(s Facts) Facts { return s.Copy() }
+func (c *FactsClient) Join(a, b Facts) Facts {
+	if c.OnJoin != nil {
+		return c.OnJoin(a, b)
+	}
+	return a.Meet(b)
+}
 func (c *FactsClient) Equal(a, b Facts) bool { return a.Eq(b) }
 func (c *FactsClient) Stmt(n ast.Node, s Facts) Facts {
 	if c.OnStmt != nil {
